@@ -17,8 +17,8 @@ RULE = ("every rooted directory tree shape with <=4/5 directory nodes and depth 
         "configuration)")
 
 
-def assignments(n, maxvar, auto_root_ok=True):
-    classes = list(CONTENT)
+def assignments(n, maxvar, auto_root_ok=True, with_indexfile=False):
+    classes = [c for c in CONTENT if c != "indexfile_renamed" and (with_indexfile or c != "indexfile")]
     base = ["one"] * n
     yield list(base)
     for k in range(1, maxvar + 1):
@@ -86,7 +86,7 @@ def jobs_for(tier):
     jobs = []
     for parents in shapes:
         n = len(parents)
-        for a in assignments(n, 2):
+        for a in assignments(n, 2, with_indexfile=True):
             nvar = sum(1 for c in a if c != "one")
             for recursive, auto, prefix in itertools.product((True, False), (True, False), (None, "P")):
                 if not recursive and nvar == 2 and a[0] == "one":
@@ -117,6 +117,18 @@ def run(ctx):
     ctx.assumptions += ["with auto-exclusion on, trees whose root holds no .cmake file are outside the domain",
                         "page identity (title frame, module name) is removed before comparing with the single-file rendering"]
     return RULE
+
+
+def attribute(case, msgs):
+    """K4: a processed file named index.cmake - its page and the directory index share one path.  Attributed only if
+    the case holds such a file AND passes once exactly those files are renamed."""
+    c = list(case)
+    if "indexfile" not in c[1]:
+        return None
+    c[1] = ["indexfile_renamed" if x == "indexfile" else x for x in c[1]]
+    if c[6]:
+        c[6] = tuple(c[6])
+    return "K4" if not run_case(tuple(c))["viol"] else None
 
 
 def replay(case):
